@@ -17,6 +17,9 @@ One case =
   indexer.assigntorings     (option indexer) table and list on a fresh object, ra / na
 
 Run as a program (`python c03_big.py in.json out.json`) by props/c03.py: several shards in parallel.
+A failure CAUSED BY THE TREE UNDER TEST (an exception inside ImageD11, the import included; a list or ring
+table the judge cannot read; a crash of the process while a case is replayed) is reported as a failed
+clause of that case - a violation with the case as replay object - never as a machinery error.
 """
 from __future__ import print_function
 import sys, os, json, math, time
@@ -223,30 +226,70 @@ def load_modules():
     return ucmod, idxmod
 
 
+def _blank(job):
+    return {"fails": [], "ring_traces": [], "lists": 0, "ringtables": 0, "skipped": {},
+            "key": [job["rec"]["g"], job["rec"]["lim"], job["rec"]["cen"]]}
+
+
+def _case_of(job):
+    cell, _ = L.cell_from_form(job["rec"]["g"], mode=job["opts"].get("mode", "lo"))
+    return {"kind": "big", "rec": job["rec"], "opts": job["opts"], "cell": list(cell), "cen": job["rec"]["cen"]}
+
+
+def _blame(job, e, what):
+    """result for a job that ended in an exception: raised inside the code under test (a frame of the
+    traceback lies in ImageD11, or the harness' judge tripped over what the code returned: ValueError /
+    TypeError / IndexError / KeyError / OverflowError / AssertionError while handling the real list or
+    ring table) -> a violation with the BIG case as replay object; anything else -> machinery"""
+    import traceback
+    r = _blank(job)
+    tb = traceback.extract_tb(e.__traceback__)
+    inside = [fr for fr in tb if "/ImageD11/" in fr.filename]
+    judge = [fr for fr in tb if fr.name in ("list_clauses", "rings_clauses", "judge_list_np", "judge_rings_np", "ring_starts",
+                                            "ring_windows", "list_arrays", "indexer_big")]
+    if inside:
+        r["fails"].append({"label": "exception:big", "size": 0, "case": _case_of(job),
+                           "what": "BIG case %s %s: raised %r at %s:%d" % (r["key"], what, e, inside[-1].filename, inside[-1].lineno)})
+    elif judge and isinstance(e, (ValueError, TypeError, IndexError, KeyError, OverflowError, AssertionError, AttributeError)):
+        r["fails"].append({"label": "malformed:big", "size": 0, "case": _case_of(job),
+                           "what": "BIG case %s %s: what the code returned cannot be read as a list of [ds, (h,k,l)] / a ring table: "
+                                   "%r in %s" % (r["key"], what, e, judge[-1].name)})
+    else:
+        r["machinery"] = "BIG case %s %s: %s" % (r["key"], what, "".join(traceback.format_exception(type(e), e, e.__traceback__))[-1500:])
+    return r
+
+
+def _dump(path, obj):
+    tmp = path + ".tmp"
+    with open(tmp, "w") as f:
+        json.dump(obj, f, default=lambda o: o.item() if hasattr(o, "item") else str(o))
+    os.replace(tmp, path)
+
+
 def main(argv):
+    """results are written after every job and the job in progress is named in <out>.current, so that the
+    parent can attribute a hard crash (signal) of this process to the case that was being replayed"""
     with open(argv[1]) as f:
         jobs = json.load(f)
-    ucmod, idxmod = load_modules()
     res = []
-    for job in jobs:
+    try:
+        ucmod, idxmod = load_modules()
+    except BaseException as e:                      # the tree under test does not import: every case fails
+        for job in jobs:
+            res.append(_blame(job, e, "(import of the code under test)"))
+        _dump(argv[2], res)
+        return 0
+    for n, job in enumerate(jobs):
+        with open(argv[2] + ".current", "w") as f:
+            f.write("%d" % n)
         try:
             res.append(big_case(ucmod, idxmod, job["rec"], job["opts"]))
-        except Exception as e:
-            import traceback
-            tb = traceback.extract_tb(sys.exc_info()[2])
-            inside = [fr for fr in tb if "/ImageD11/" in fr.filename]
-            r = {"fails": [], "ring_traces": [], "lists": 0, "ringtables": 0, "skipped": {},
-                 "key": [job["rec"]["g"], job["rec"]["lim"], job["rec"]["cen"]]}
-            if inside:
-                cell, _ = L.cell_from_form(job["rec"]["g"], mode=job["opts"].get("mode", "lo"))
-                r["fails"].append({"label": "exception:big", "size": 0,
-                                   "what": "BIG case %s raised %r at %s:%d" % (r["key"], e, inside[-1].filename, inside[-1].lineno),
-                                   "case": {"kind": "big", "rec": job["rec"], "opts": job["opts"], "cell": list(cell), "cen": job["rec"]["cen"]}})
-            else:
-                r["machinery"] = "BIG case %s: %s" % (r["key"], traceback.format_exc()[-1500:])
-            res.append(r)
-    with open(argv[2], "w") as f:
-        json.dump(res, f)
+        except KeyboardInterrupt:
+            raise
+        except BaseException as e:                  # (SystemExit raised by the code under test included)
+            res.append(_blame(job, e, ""))
+        _dump(argv[2], res)
+    os.unlink(argv[2] + ".current")
     return 0
 
 
